@@ -9,7 +9,7 @@ from ..loader import AnalysisError, FuncInfo
 from ..report import rule
 from ..resolve import Resolver
 from ..terms import App, Attr, Comp, Idx, Poly, Range, Slc, Sym, Tup
-from .common import bind_args, calls_to, module_constant, njit_kernels, short, unparse
+from .common import Flow, bind_args, calls_to, module_constant, njit_kernels, short, unparse
 
 DENY_KW = {"fastmath", "error_model", "forceobj", "looplift", "boundscheck", "inline", "nogil_unsafe"}
 PRANGE = ("fast_ticc.numba_guard.prange", "numba.prange")
@@ -56,6 +56,25 @@ def r1(ctx):
                 and c.args[0].value.id == w.node.args.vararg.arg and c.keywords[0].value.id == w.node.args.kwarg.arg
         outer_ret = [n for n in Resolver.walk_own(noop.node) if isinstance(n, ast.Return)]
         ok = ok and len(outer_ret) == 1 and isinstance(outer_ret[0].value, ast.Name) and outer_ret[0].value.id == w.name
+    elif not inner:
+        # the wrapper written as a lambda: `return lambda *a, **k: function(*a, **k)` (or the function itself handed back)
+        outer_ret = [n for n in Resolver.walk_own(noop.node) if isinstance(n, ast.Return)]
+        if len(outer_ret) == 1:
+            v = outer_ret[0].value
+            if isinstance(v, ast.Name):
+                fl_ = Flow(ana, noop)
+                d_ = fl_.sole_def(v.id, fl_.at(v))
+                if v.id == noop.params[0]:
+                    ok = True
+                elif d_ is not None and d_.kind == "stmt" and isinstance(d_.ast, ast.Assign):
+                    v = d_.ast.value
+            if isinstance(v, ast.Lambda) and isinstance(v.body, ast.Call):
+                c = v.body
+                ok = isinstance(c.func, ast.Name) and c.func.id == noop.params[0] and len(c.args) == 1 and isinstance(c.args[0], ast.Starred) \
+                    and len(c.keywords) == 1 and c.keywords[0].arg is None and v.args.vararg is not None and v.args.kwarg is not None \
+                    and isinstance(c.args[0].value, ast.Name) and c.args[0].value.id == v.args.vararg.arg \
+                    and isinstance(c.keywords[0].value, ast.Name) and c.keywords[0].value.id == v.args.kwarg.arg \
+                    and not (v.args.args or v.args.kwonlyargs or v.args.posonlyargs)
     ctx.check(ok, noop, "the no-op decorator returns a wrapper that forwards *args/**kwargs and returns the function's value",
               role="fallback:noop", expected="def wrapped(*a, **k): return func(*a, **k)", found="different shape")
     fn = ana.func("numba_guard.fake_njit")
